@@ -146,6 +146,15 @@ Theorem C19_layout_any_params : forall P, params_ok P = true ->
 Proof. exact s_layout. Qed.
 Print Assumptions C19_layout_any_params.
 
+(** TopoSort (Map.SortedNodes before pushing) lists every node once, each
+    after all of its predecessors. *)
+Theorem C19_topo_sort : forall sh, perm_oracle sh -> forall g, wf g ->
+  forall m, new_map sh g = MOk m ->
+  Permutation (sorted_nodes gen_params m (m_lay0 m)) (keys g) /\
+  forall l1 v l2 u, sorted_nodes gen_params m (m_lay0 m) = l1 ++ v :: l2 -> edge g u v -> In u l1.
+Proof. exact (s_topo gen_params gen_layer_first). Qed.
+Print Assumptions C19_topo_sort.
+
 (** Graph.Reverse reverses every edge with its multiplicity; reversing twice
     gives every edge list back (sorted, as Reverse sorts), and the node set
     back plus the targets that were not nodes. *)
